@@ -52,7 +52,7 @@ def depthLevel (l : Links) (d : QueryDoc) : Nat → DJump
 
 def outOfFuelMsg : Bytes := str "model: out of fuel"
 
-def maxIntrospectionDepthStep (_ : Schema) (d : QueryDoc) (e : Event) : Except Bytes (List RErr) :=
+def maxIntrospectionDepthStep (_ : SV) (d : QueryDoc) (e : Event) : Except Bytes (List RErr) :=
   match e.p with
   | .field f _ _ =>
     if f.name == str "__schema" || f.name == str "__type" then
